@@ -191,7 +191,7 @@ pub fn generate(thorough: bool, r: &mut Rng, em: &mut Emit) {
         let printed = format!("{}", IDLValue::Text(s.clone()));
         em.case_nt("c11.lex_text", &[sx::hex(printed.as_bytes())], true);
         // hand-made sources: escapes of every kind, valid and malformed
-        let esc = ["\\n", "\\t", "\\\\", "\\\"", "\\'", "\\u{41}", "\\u{1_F600}", "\\u{}", "\\u{d800}", "\\u{110000}", "\\u{_1}", "\\u{g}", "\\41", "\\4", "\\zz", "\\0", "\\0a", "\\e9", "\\c3\\a9", "\\ff", "\\b", "\\u", "\\u{41", "x", "é", "\u{1F600}", "\\\n"];
+        let esc = ["\\n", "\\t", "\\\\", "\\\"", "\\'", "\\u{41}", "\\u{1_F600}", "\\u{}", "\\u{d800}", "\\u{110000}", "\\u{_1}", "\\u{g}", "\\41", "\\4", "\\zz", "\\0", "\\0a", "\\e9", "\\c3\\a9", "\\ff", "\\b", "\\u", "\\u{41", "x", "é", "\u{1F600}", "\\\n", "\\é", "\\\u{1F600}", "\\\u{80}", "\\"];
         let n = r.range(0, 4);
         let mut src = String::from("\"");
         for _ in 0..n { let e: &str = *r.pick(&esc[..]); src.push_str(e); if r.coin(1, 3) { src.push_str(&gen_text(r).replace('\\', "").replace('"', "")); } }
